@@ -130,19 +130,19 @@ func (p *Prog) d(v ssa.Value, depth int, seen map[ssa.Value]bool) string {
 	case *ssa.BinOp:
 		if isRangeIndexPhi(x.X) && x.Op == token.ADD {
 			if k, ok := x.Y.(*ssa.Const); ok && k.Value != nil && k.Value.ExactString() == "1" {
-				return "ι" // the index of a `for i := range s` loop
+				return iotaName(x.X.(*ssa.Phi)) // the index of a `for i := range s` loop
 			}
 		}
 		return "(" + p.d(x.X, depth+1, seen) + " " + x.Op.String() + " " + p.d(x.Y, depth+1, seen) + ")"
 	case *ssa.Phi:
 		if isRangeIndexPhi(x) {
-			return "ι-1"
+			return iotaName(x) + "-1"
 		}
 		if k, ok := forCounterPhi(x); ok {
 			if k == "0" {
-				return "ι"
+				return iotaName(x)
 			}
-			return "ι@" + k
+			return iotaName(x) + "@" + k
 		}
 		var parts []string
 		set := map[string]bool{}
@@ -551,4 +551,46 @@ func shadowedEmbedded(recv ssa.Value, f *ssa.Function) (string, bool) {
 		return "", false
 	}
 	return st.Field(idx).Name(), true
+}
+
+// iotaName names a loop counter by its nesting depth: ι for an outermost loop, ι′ for a loop nested
+// in one other loop, ι″ … (depth = number of loop headers strictly dominating this loop's header).
+func iotaName(phi *ssa.Phi) string {
+	b := phi.Block()
+	depth := 0
+	for d := b.Idom(); d != nil; d = d.Idom() {
+		if strings.HasSuffix(d.Comment, ".loop") {
+			// d dominates b; it encloses b only if b can reach d again (b is inside d's loop body)
+			if blockReaches(b, d) {
+				depth++
+			}
+		}
+	}
+	return "ι" + strings.Repeat("′", depth)
+}
+
+func blockReaches(from, to *ssa.BasicBlock) bool {
+	seen := map[*ssa.BasicBlock]bool{}
+	var walk func(b *ssa.BasicBlock) bool
+	walk = func(b *ssa.BasicBlock) bool {
+		if b == to {
+			return true
+		}
+		if seen[b] {
+			return false
+		}
+		seen[b] = true
+		for _, s := range b.Succs {
+			if walk(s) {
+				return true
+			}
+		}
+		return false
+	}
+	for _, s := range from.Succs {
+		if walk(s) {
+			return true
+		}
+	}
+	return false
 }
